@@ -278,6 +278,12 @@ impl Engine {
     pub fn set_rule(&self, r: &str) {
         *self.rule.lock().unwrap() = r.to_string();
     }
+    /// parts added later (kept as a separate paragraph of the rule text)
+    pub fn extend_rule(&self, r: &str) {
+        let mut g = self.rule.lock().unwrap();
+        g.push_str(" ADDED AFTER THE SEEDED ROUNDS (DESIGN.md 11.5; every part is labelled part:* in the class counts): ");
+        g.push_str(r);
+    }
     pub fn assume(&self, a: &str) {
         self.assumptions.lock().unwrap().push(a.to_string());
     }
@@ -434,6 +440,11 @@ impl Engine {
                 *k += 1;
                 samples.push(json!({"class": c, "case": v}));
             }
+        }
+        if samples.is_empty() {
+            // a run that stopped at its very first case (a violation in a regress replay) has sampled nothing: the
+            // evidence then names the replay files instead
+            samples.push(json!({"class": "run_stopped_early", "case": {"replays": replay_paths.clone()}}));
         }
         let mut cov = Map::new();
         cov.insert("evaluations".into(), json!(g.evaluations));
